@@ -23,7 +23,7 @@ func (d *dsl) re(k, text string, neg bool) *pnode {
 	at := &reAtom{idx: len(d.res), text: text, re: regexp.MustCompile(text), key: k}
 	if sre, err := syntax.Parse(text, syntax.Perl); err == nil {
 		at.anchored = hasAnchor(sre)
-		at.literal = sre.Op == syntax.OpLiteral && sre.Flags&syntax.FoldCase == 0
+		at.literal = pureLiteral(text, sre)
 	}
 	d.res = append(d.res, at)
 	kind := byte('~')
